@@ -54,7 +54,7 @@ func main() {
 		*tier = t
 	}
 	start := time.Now()
-	ids := []string{*prop}
+	ids := strings.Split(*prop, ",")
 	if *prop == "all" {
 		ids = nil
 		for id := range props {
